@@ -9,6 +9,10 @@
 -/
 import ClarabelModel.Equil
 import ClarabelProofs.Lemmas.Equil
+import ClarabelProofs.Lemmas.EquilZero
+import ClarabelProofs.Lemmas.EquilBounds
+import ClarabelProofs.Lemmas.EquilCones
+import ClarabelProofs.Lemmas.PresolveCollapse
 
 namespace Clarabel.C10
 open Clarabel Equil
@@ -179,21 +183,106 @@ theorem bounds_rectified [LawfulFloatLike α] (lo hi : α) (dt : ProblemData α)
   · intro x hx
     exact hb x (List.mem_of_mem_drop (List.mem_of_mem_take hx))
 
-/-- [F] **zero rows unscaled** (`zero_rows_unscaled_partial`): in one pass of the Ruiz loop a
-row of `A` whose stored entries are all zero, and whose cumulative scaling is still 1, keeps
-`eᵢ = 1` (its norm is 0, the step `1/sqrt(1) = 1` survives the clip because
-`min ≤ 1 ≤ max`); by `scalar_cones_untouched` the rectification leaves it alone in a
-zero / nonnegative cone.  The only property of `sqrt` used is `sqrt 1 = 1`.
-Gap to the full statement of DESIGN §3: the induction over the passes (an all-zero row
-stays all-zero under `scale_data`: `0·x = 0`) and the column version (`dⱼ = 1` for an
-all-zero column of `[P; A]`) are not carried by a theorem; both are checked by the oracle of
-`equil.equilibrate` on every run. -/
-theorem zero_rows_unscaled_partial [LawfulFloatLike α] (s : Settings α) (dt : ProblemData α) (i : Nat)
-    (hsqrt : sqrt (1:α) = 1) (h1 : s.minScaling ≤ 1) (h2 : 1 ≤ s.maxScaling) (hz : RowZero dt.A i)
-    (hiw : i < dt.equilibration.einv.size) (hie : i < dt.equilibration.e.size)
-    (he : dt.equilibration.e.getD i 1 = 1) :
-    (ruizStep s dt).equilibration.e.getD i 1 = 1 :=
-  zero_row_step s dt i hsqrt h1 h2 hz hiw hie he
+/-- [F] **bounds**, as one statement through `equilibrate`: for problem data with fresh
+(identity) equilibration data and settings `0 < min ≤ 1 ≤ max`, whatever `equilibrate`
+returns has every `dⱼ`, every `eᵢ` and `c` inside `[min, max]` — after all passes of the Ruiz
+loop (`bounds_partial`), the cost scaling, the rectification (`e` on a non-scalar cone becomes
+the mean of its entries) and the final rescale (which only changes the data and `e`). -/
+theorem bounds [LawfulFloatLike α] (dt dt' : ProblemData α) (cones : List (ConeT α)) (s : Settings α)
+    (hlo : 0 < s.minScaling) (h1 : s.minScaling ≤ 1) (h2 : 1 ≤ s.maxScaling)
+    (hfresh : dt.equilibration = EquilData.new dt.n dt.m)
+    (h : equilibrate dt cones s = .ok dt') : Bounded s.minScaling s.maxScaling dt' := by
+  unfold equilibrate at h
+  split at h
+  · cases h; exact bounds_partial s hlo h1 h2 dt hfresh 0
+  · split at h
+    · cases h
+    · split at h
+      · cases h
+      · cases h
+        obtain ⟨hd, he, hc1, hc2⟩ := bounds_partial s hlo h1 h2 dt hfresh s.maxIter
+        have hcc : (finish (ruizLoop s s.maxIter dt) cones).equilibration.c =
+            (ruizLoop s s.maxIter dt).equilibration.c := by
+          simp only [finish, setInverses, rectifyStep]; split <;> rfl
+        have hee : (finish (ruizLoop s s.maxIter dt) cones).equilibration.e =
+            (rectifyStep (ruizLoop s s.maxIter dt) cones).equilibration.e := rfl
+        refine ⟨?_, ?_, ?_, ?_⟩
+        · rw [finish_d]; exact hd
+        · rw [hee]; exact allIn_rectifyStep _ _ hlo _ cones he
+        · rw [hcc]; exact hc1
+        · rw [hcc]; exact hc2
+
+/-- [F] **zero rows unscaled**: let `equilibrate` succeed on problem data with fresh
+(identity) equilibration data and `min ≤ 1 ≤ max`.  If all stored entries of row `i` of `A`
+are zero and the row belongs to a zero / nonnegative cone `c` of the cone list
+(`cones = pre ++ c :: post`, `i = numel pre + k`, `k < nvars c`), then `eᵢ = 1` in the result:
+the invariant "row all-zero ∧ eᵢ = 1" is carried through every pass of the Ruiz loop
+(`0·x = 0`; the step `1/sqrt(1) = 1` survives the clip) and the rectification leaves scalar
+cones untouched.  The only property of `sqrt` used is `sqrt 1 = 1` (true for `Real.sqrt` —
+`zero_rows_unscaled_real` — and for IEEE `sqrt`). -/
+theorem zero_rows_unscaled [LawfulFloatLike α] (dt dt' : ProblemData α) (pre post : List (ConeT α))
+    (c : ConeT α) (s : Settings α) (hsqrt : sqrt (1:α) = 1) (h1 : s.minScaling ≤ 1) (h2 : 1 ≤ s.maxScaling)
+    (hfresh : dt.equilibration = EquilData.new dt.n dt.m) (hc : c.isScalar = true)
+    (k : Nat) (hk : k < c.nvars) (hz : RowZero dt.A (Cones.numel pre + k))
+    (h : equilibrate dt (pre ++ c :: post) s = .ok dt') :
+    dt'.equilibration.e.getD (Cones.numel pre + k) 1 = 1 := by
+  unfold equilibrate at h
+  split at h
+  · cases h
+    simp only [hfresh, EquilData.new, Array.getD]
+    split <;> simp
+  · split at h
+    · cases h
+    · rename_i hok
+      split at h
+      · cases h
+      · rename_i hnum
+        cases h
+        have hs : Shapes dt := shapes_of_shapesOk dt (by simpa using hok)
+        have hm : Cones.numel pre + c.nvars + Cones.numel post = dt.m := by
+          have : Cones.numel (pre ++ c :: post) = dt.m := by simpa using hnum
+          rw [Cones.numel_append] at this
+          simp only [Cones.numel] at this
+          omega
+        have hi : Cones.numel pre + k < dt.m := by omega
+        have hz0 : ZRow (Cones.numel pre + k) dt :=
+          ⟨hz, by simp [hfresh, EquilData.new, hi], by simp [hfresh, EquilData.new, hi],
+            by simp [hfresh, EquilData.new, Array.getD, hi]⟩
+        have hzL := hz0.ruizLoop s hsqrt h1 h2 s.maxIter
+        have hInvL := (Inv.init dt hfresh).ruizLoop hs s s.maxIter
+        have hInvF := hInvL.finish hs (pre ++ c :: post)
+        have hsz : Cones.numel pre + k < (finish (ruizLoop s s.maxIter dt) (pre ++ c :: post)).equilibration.e.size := by
+          rw [hInvF.sze]; exact hi
+        have hu := scalar_cones_untouched (ruizLoop s s.maxIter dt) pre post c hc
+          (by rw [hInvL.sze]; omega) k hk
+        have e1 : ∀ (a : Array α) (i : Nat) (x y : α), i < a.size → a.getD i x = a.getD i y := by
+          intro a i x y hi'; simp [Array.getD, hi']
+        rw [e1 _ _ 1 0 hsz, hu, e1 _ _ 0 1 hzL.ie]
+        exact hzL.one
+
+/-- [F] **zero columns unscaled**: under the same assumptions, if every stored entry of
+column `j` of `A` is zero and every stored entry of the triangle `P` in row `j` or column `j`
+is zero (an all-zero column of `[P; A]`), then `dⱼ = 1` in the result. -/
+theorem zero_cols_unscaled [LawfulFloatLike α] (dt dt' : ProblemData α) (cones : List (ConeT α))
+    (s : Settings α) (hsqrt : sqrt (1:α) = 1) (h1 : s.minScaling ≤ 1) (h2 : 1 ≤ s.maxScaling)
+    (hfresh : dt.equilibration = EquilData.new dt.n dt.m)
+    (j : Nat) (hj : j < dt.n) (hA : ZeroWhere dt.A (fun _ c => c = j))
+    (hP : ZeroWhere dt.P (fun r c => r = j ∨ c = j))
+    (h : equilibrate dt cones s = .ok dt') :
+    dt'.equilibration.d.getD j 1 = 1 := by
+  have h0 : ZCol j dt :=
+    ⟨hA, hP, by simp [hfresh, EquilData.new, hj], by simp [hfresh, EquilData.new, hj],
+      by simp [hfresh, EquilData.new, Array.getD, hj]⟩
+  unfold equilibrate at h
+  split at h
+  · cases h; exact h0.one
+  · split at h
+    · cases h
+    · split at h
+      · cases h
+      · cases h
+        rw [finish_d]
+        exact (h0.ruizLoop s hsqrt h1 h2 s.maxIter).one
 
 end field
 
@@ -213,16 +302,98 @@ theorem fresh_is_identity [OfNat α 1] (n m : Nat) :
       { d := Array.replicate n 1, dinv := Array.replicate n 1, e := Array.replicate m 1,
         einv := Array.replicate m 1, c := 1 } := rfl
 
+/-! ### cone preservation for the non-symmetric cones and the PSD cone; ℝ instances -/
+
+/-- [R] **cone preserved**, exponential cone: for every `k > 0` the model's membership tests
+of the cone (`is_primal_feasible`) and of its dual (`is_dual_feasible`) give the same answer
+on `k·s` as on `s` — so `s ∈ int K ⇔ E s ∈ int K` and `z ∈ int K* ⇔ E⁻¹ z ∈ int K*` when
+`E = k·I` on the cone's rows (`k⁻¹ > 0` as well). -/
+theorem cone_preserved_exp (k : ℝ) (hk : 0 < k) (v0 v1 v2 : ℝ) :
+    Exp.isPrimalFeasible (k * v0) (k * v1) (k * v2) = Exp.isPrimalFeasible v0 v1 v2 ∧
+    Exp.isDualFeasible (k⁻¹ * v0) (k⁻¹ * v1) (k⁻¹ * v2) = Exp.isDualFeasible v0 v1 v2 :=
+  ⟨exp_primal_scale k v0 v1 v2 hk, exp_dual_scale k⁻¹ v0 v1 v2 (inv_pos.mpr hk)⟩
+
+/-- [R] **cone preserved**, power cone with exponent `a ∈ (0,1)`. -/
+theorem cone_preserved_pow (a k : ℝ) (hk : 0 < k) (ha0 : 0 < a) (ha1 : a < 1) (v0 v1 v2 : ℝ) :
+    Pow.isPrimalFeasible a (k * v0) (k * v1) (k * v2) = Pow.isPrimalFeasible a v0 v1 v2 ∧
+    Pow.isDualFeasible a (k⁻¹ * v0) (k⁻¹ * v1) (k⁻¹ * v2) = Pow.isDualFeasible a v0 v1 v2 :=
+  ⟨pow_primal_scale a k v0 v1 v2 hk, pow_dual_scale a k⁻¹ v0 v1 v2 (inv_pos.mpr hk) ha0 ha1⟩
+
+/-- [F] **cone preserved**, PSD cone, stated on the quadratic form: `xᵀ(kS)x = k·xᵀSx`, hence
+for `k > 0` the matrix `kS` is positive semidefinite iff `S` is. -/
+theorem cone_preserved_psd {α : Type} [Field α] [LinearOrder α] [IsStrictOrderedRing α] {n : Nat}
+    (k : α) (hk : 0 < k) (S : Fin n → Fin n → α) :
+    (∀ x, 0 ≤ quadForm (fun i j => k * S i j) x) ↔ (∀ x, 0 ≤ quadForm S x) := by
+  constructor
+  · intro h x
+    have := h x
+    rw [quadForm_scale] at this
+    exact le_of_mul_le_mul_left (by simpa using this) hk
+  · intro h x
+    rw [quadForm_scale]
+    exact mul_nonneg hk.le (h x)
+
+/-- [R] `zero_rows_unscaled` over ℝ (`Real.sqrt 1 = 1`): no hypothesis about `sqrt` is left. -/
+theorem zero_rows_unscaled_real (dt dt' : ProblemData ℝ) (pre post : List (ConeT ℝ))
+    (c : ConeT ℝ) (s : Settings ℝ) (h1 : s.minScaling ≤ 1) (h2 : 1 ≤ s.maxScaling)
+    (hfresh : dt.equilibration = EquilData.new dt.n dt.m) (hc : c.isScalar = true)
+    (k : Nat) (hk : k < c.nvars) (hz : RowZero dt.A (Cones.numel pre + k))
+    (h : equilibrate dt (pre ++ c :: post) s = .ok dt') :
+    dt'.equilibration.e.getD (Cones.numel pre + k) 1 = 1 :=
+  zero_rows_unscaled dt dt' pre post c s (by simp) h1 h2 hfresh hc k hk hz h
+
+/-- [R] `zero_cols_unscaled` over ℝ. -/
+theorem zero_cols_unscaled_real (dt dt' : ProblemData ℝ) (cones : List (ConeT ℝ))
+    (s : Settings ℝ) (h1 : s.minScaling ≤ 1) (h2 : 1 ≤ s.maxScaling)
+    (hfresh : dt.equilibration = EquilData.new dt.n dt.m)
+    (j : Nat) (hj : j < dt.n) (hA : ZeroWhere dt.A (fun _ c => c = j))
+    (hP : ZeroWhere dt.P (fun r c => r = j ∨ c = j))
+    (h : equilibrate dt cones s = .ok dt') :
+    dt'.equilibration.d.getD j 1 = 1 :=
+  zero_cols_unscaled dt dt' cones s (by simp) h1 h2 hfresh j hj hA hP h
+
 /-! ### non-vacuity -/
 
 /-- `cone_preserved_soc` on a concrete point of the cone over ℚ-like data (here ℝ) -/
 example : SocMem ([5, 3, 4] : List ℝ) := by norm_num [SocMem, sumSq]
 example : SocMem (([5, 3, 4] : List ℝ).map ((2:ℝ) * ·)) := (cone_preserved_soc (2:ℝ) (by norm_num) _).1.mpr (by norm_num [SocMem, sumSq])
-/-- `zero_rows_unscaled_partial`: `sqrt 1 = 1` holds over ℝ -/
+/-- `zero_rows_unscaled`: `sqrt 1 = 1` holds over ℝ -/
 example : sqrt (1:ℝ) = 1 := by simp
 /-- the hypotheses of `bounds_partial` hold for the default settings -/
 example : (0:ℝ) < 1e-4 ∧ (1e-4:ℝ) ≤ 1 ∧ (1:ℝ) ≤ 1e4 := by norm_num
 /-- `mul_clip_mem` instance: d = 2, step 100 clipped to max/d -/
 example : (2:ℝ) * Vec.clip 100 (1e-4 / 2) (1e4 / 2) ≤ 1e4 := (mul_clip_mem 2 100 1e-4 1e4 (by norm_num) (by norm_num) (by norm_num)).2
 
+end Clarabel.C10
+
+namespace Clarabel.C10
+open Clarabel Equil
+/-- `cone_preserved_exp` / `cone_preserved_pow` on points of the cones -/
+example : Exp.isPrimalFeasible (0:ℝ) 1 2 = true := by
+  unfold Exp.isPrimalFeasible
+  have h : (0:ℝ) < Nonsym.logsafe 2 := by
+    rw [Nonsym.logsafe_of_pos (by norm_num)]
+    exact Real.log_pos (by norm_num)
+  simp [h]
+/-- `cone_preserved_psd`: the identity matrix is PSD on its quadratic form -/
+example : ∀ x : Fin 2 → ℝ, 0 ≤ quadForm (fun i j => if i = j then (1:ℝ) else 0) x := by
+  intro x
+  simp only [quadForm, Fin.sum_univ_two]
+  simp
+  nlinarith [mul_self_nonneg (x 0), mul_self_nonneg (x 1)]
+/-- `zero_rows_unscaled` / `zero_cols_unscaled`: the hypotheses are satisfiable — row 1 of the
+2×2 matrix with stored entries (0,0)=3, (1,1)=0 is all-zero (one explicit zero), and so is
+its column 1 -/
+example : RowZero (⟨2, 2, #[0, 1, 2], #[0, 1], #[3, 0]⟩ : Csc ℝ) 1 := by
+  have hE : (⟨2, 2, #[0, 1, 2], #[0, 1], #[3, 0]⟩ : Csc ℝ).entries = [(0, 0, 3), (1, 1, 0)] := by rfl
+  intro e he
+  rw [hE] at he
+  simp only [List.mem_cons, List.not_mem_nil, or_false] at he
+  rcases he with rfl | rfl <;> simp
+example : ZeroWhere (⟨2, 2, #[0, 1, 2], #[0, 1], #[3, 0]⟩ : Csc ℝ) (fun _ c => c = 1) := by
+  have hE : (⟨2, 2, #[0, 1, 2], #[0, 1], #[3, 0]⟩ : Csc ℝ).entries = [(0, 0, 3), (1, 1, 0)] := by rfl
+  intro e he
+  rw [hE] at he
+  simp only [List.mem_cons, List.not_mem_nil, or_false] at he
+  rcases he with rfl | rfl <;> simp
 end Clarabel.C10
